@@ -14,14 +14,17 @@ import (
 // Roles are the registries the rules read from the code instead of
 // hard-coding (DESIGN.md section 1.2). They are recomputed on every run.
 type Roles struct {
-	Filters    []*Filter
-	FilterByFn map[*ssa.Function]*Filter
-	Tags       []*Tag
-	Blocks     []*Block
-	Renderers  []*ssa.Function // anonymous func(io.Writer, render.Context) error
-	Evaluators []*ssa.Function // anonymous func(expressions.Context) values.Value
-	Boundaries []*Boundary
-	Problems   []string // anchors that could not be resolved
+	Filters        []*Filter
+	FilterByFn     map[*ssa.Function]*Filter
+	Tags           []*Tag
+	Blocks         []*Block
+	Renderers      []*ssa.Function // anonymous func(io.Writer, render.Context) error
+	Evaluators     []*ssa.Function // anonymous func(expressions.Context) values.Value
+	Boundaries     []*Boundary
+	inFilters      bool
+	Problems       []string // anchors that could not be resolved (all registries)
+	FilterProblems []string
+	TagProblems    []string
 }
 
 // Filter is one registration in filters.AddStandardFilters.
@@ -82,7 +85,9 @@ func GetRoles(p *an.Prog) *Roles {
 		return r
 	}
 	r := &Roles{FilterByFn: map[*ssa.Function]*Filter{}}
+	r.inFilters = true
 	r.resolveFilters(p)
+	r.inFilters = false
 	r.resolveTags(p)
 	r.resolveClosures(p)
 	r.resolveBoundaries(p)
@@ -91,7 +96,56 @@ func GetRoles(p *an.Prog) *Roles {
 }
 
 func (r *Roles) problem(format string, a ...any) {
-	r.Problems = append(r.Problems, fmt.Sprintf(format, a...))
+	msg := fmt.Sprintf(format, a...)
+	r.Problems = append(r.Problems, msg)
+	if r.inFilters {
+		r.FilterProblems = append(r.FilterProblems, msg)
+	} else {
+		r.TagProblems = append(r.TagProblems, msg)
+	}
+}
+
+// constStrings resolves the constant strings a value may take: a constant, or
+// an element of a local literal of constant strings (for _, name := range []string{...}).
+func constStrings(v ssa.Value) ([]string, bool) {
+	if s, ok := an.ConstString(v); ok {
+		return []string{s}, true
+	}
+	u, ok := an.Deref(v).(*ssa.UnOp)
+	if !ok {
+		return nil, false
+	}
+	ia, ok := u.X.(*ssa.IndexAddr)
+	if !ok {
+		return nil, false
+	}
+	var arr *ssa.Alloc
+	switch x := ia.X.(type) {
+	case *ssa.Slice:
+		arr, _ = x.X.(*ssa.Alloc)
+	case *ssa.Alloc:
+		arr = x
+	}
+	if arr == nil || arr.Referrers() == nil {
+		return nil, false
+	}
+	var out []string
+	for _, ru := range *arr.Referrers() {
+		ea, ok := ru.(*ssa.IndexAddr)
+		if !ok || ea.Referrers() == nil {
+			continue
+		}
+		for _, uu := range *ea.Referrers() {
+			if st, ok := uu.(*ssa.Store); ok {
+				s, isC := an.ConstString(st.Val)
+				if !isC {
+					return nil, false
+				}
+				out = append(out, s)
+			}
+		}
+	}
+	return out, len(out) > 0
 }
 
 // funcValue resolves a value to the function it denotes: a function, a
@@ -171,7 +225,7 @@ func (r *Roles) resolveTags(p *an.Prog) {
 		r.problem("tags.AddStandardTags not found")
 		return
 	}
-	blocks := map[ssa.Value]*Block{} // builder value -> block
+	blocks := map[ssa.Value][]*Block{} // builder value -> block(s) registered by that call
 	an.EachCall(fn, func(ci ssa.CallInstruction) {
 		c := ci.Common()
 		callee := c.StaticCallee()
@@ -184,54 +238,67 @@ func (r *Roles) resolveTags(p *an.Prog) {
 			if len(args) != 3 {
 				return
 			}
-			name, ok := an.ConstString(args[1])
+			names, ok := constStrings(args[1])
 			comp := funcValue(args[2])
 			if !ok || comp == nil {
 				r.problem("AddTag not resolved at %s", p.Pos(ci.Pos()))
 				return
 			}
-			r.Tags = append(r.Tags, &Tag{Name: name, Compiler: comp, Renderer: returnedClosure(comp), Pos: ci.Pos()})
+			for _, name := range names {
+				r.Tags = append(r.Tags, &Tag{Name: name, Compiler: comp, Renderer: returnedClosure(comp), Pos: ci.Pos()})
+			}
 		case "AddBlock":
-			name, ok := an.ConstString(c.Args[len(c.Args)-1])
+			names, ok := constStrings(c.Args[len(c.Args)-1])
 			if !ok {
 				r.problem("AddBlock with non-constant name at %s", p.Pos(ci.Pos()))
 				return
 			}
-			b := &Block{Name: name, Pos: ci.Pos()}
-			r.Blocks = append(r.Blocks, b)
+			var group []*Block
+			for _, name := range names {
+				b := &Block{Name: name, Pos: ci.Pos()}
+				r.Blocks = append(r.Blocks, b)
+				group = append(group, b)
+			}
 			if v := ci.Value(); v != nil {
-				blocks[v] = b
+				blocks[v] = group
 			}
 		case "Clause":
-			b := blocks[c.Args[0]]
-			name, ok := an.ConstString(c.Args[len(c.Args)-1])
-			if b == nil || !ok {
+			group := blocks[c.Args[0]]
+			names, ok := constStrings(c.Args[len(c.Args)-1])
+			if group == nil || !ok {
 				r.problem("Clause call not resolved at %s", p.Pos(ci.Pos()))
 				return
 			}
-			b.Clauses = append(b.Clauses, name)
+			for _, b := range group {
+				b.Clauses = append(b.Clauses, names...)
+			}
 			if v := ci.Value(); v != nil {
-				blocks[v] = b
+				blocks[v] = group
 			}
 		case "Compiler":
-			b := blocks[c.Args[0]]
-			if b == nil {
+			group := blocks[c.Args[0]]
+			if group == nil {
 				r.problem("Compiler call not resolved at %s", p.Pos(ci.Pos()))
 				return
 			}
 			arg := an.Strip(c.Args[len(c.Args)-1])
+			var compiler *ssa.Function
+			var cargs []ssa.Value
 			if comp := funcValue(arg); comp != nil {
-				b.Compiler = comp
+				compiler = comp
 			} else if call, ok := arg.(*ssa.Call); ok && call.Call.StaticCallee() != nil {
 				// factory: ifTagCompiler(true) returns the compiler closure
-				b.Compiler = returnedClosure(call.Call.StaticCallee())
-				b.CompilerArgs = call.Call.Args
+				compiler = returnedClosure(call.Call.StaticCallee())
+				cargs = call.Call.Args
 			}
-			if b.Compiler == nil {
-				r.problem("block %q: compiler not resolved at %s", b.Name, p.Pos(ci.Pos()))
+			if compiler == nil {
+				r.problem("block %q: compiler not resolved at %s", group[0].Name, p.Pos(ci.Pos()))
 				return
 			}
-			b.Renderer = returnedClosure(b.Compiler)
+			for _, b := range group {
+				b.Compiler, b.CompilerArgs = compiler, cargs
+				b.Renderer = returnedClosure(compiler)
+			}
 		}
 	})
 }
